@@ -401,6 +401,24 @@ impl Property for C20 {
     }
 
     fn execute(&self, sc: &Sc, ctx: &mut Ctx) -> Outcome {
+        // ---- validity with fields whose lengths are large powers of two (their product is
+        // 2^64, and a multiple of every smaller word): non-empty is non-empty
+        if (crate::rng::hash_str(&sc.probes.join("|")) ^ sc.pkgs.len() as u64) % 40 == 7 {
+            ctx.probe("validity-with-power-of-two-lengths");
+            let mut md = Metadata::new();
+            for (f, bits) in [(F_COMMENT, 21u32), (F_CONTENTS, 22), (F_DESC, 21)] {
+                let text = "x".repeat(1usize << bits);
+                if let Err(e) = md.read_metadata(entry(f), &text) {
+                    fail!("metadata-parse", "Metadata::read_metadata({}) of 2^{} bytes failed: {}", FILE_NAMES[f], bits, e);
+                }
+            }
+            ensure!(
+                md.is_valid().is_ok(),
+                "metadata-is-valid",
+                "comment, contents and description of 2^21, 2^22 and 2^21 bytes: is_valid() is {:?}",
+                md.is_valid()
+            );
+        }
         // ---- the file-name table is a bijection over the 14 '+' files
         // (a 14-element table: enumerated completely in every run)
         for i in 0..NFILES {
@@ -455,7 +473,19 @@ impl Property for C20 {
         // (one run in four keeps its database below a directory whose name is not UTF-8:
         // the names of the packages are what counts, not the place of the database)
         let odd_root = (sc.probes.len() + sc.pkgs.len()) % 4 == 1;
-        let dbpath = if odd_root {
+        let dotdot_root = !odd_root && (sc.probes.len() + sc.pkgs.len()) % 4 == 3;
+        let dbpath = if dotdot_root {
+            // (another run in four reaches its database through "<link>/..", where the link
+            // points into another directory: the kernel resolves that to the link target's
+            // parent, a textual clean-up of the path would end up somewhere else)
+            ctx.fault("database_reached_through_symlink_dotdot");
+            let real = sd.root().join("elsewhere").join("sub");
+            std::fs::create_dir_all(&real).unwrap_or_else(|e| panic!("SIM-HARNESS: mkdir: {}", e));
+            std::os::unix::fs::symlink(&real, sd.root().join("lnk")).unwrap_or_else(|e| panic!("SIM-HARNESS: symlink: {}", e));
+            // a decoy where the textual clean-up would look
+            std::fs::create_dir_all(sd.root().join("db")).unwrap_or_else(|e| panic!("SIM-HARNESS: mkdir: {}", e));
+            sd.root().join("lnk").join("..").join("db")
+        } else if odd_root {
             ctx.fault("database_below_non_utf8_directory");
             let up = sd.root().join(OsString::from_vec(b"pkg\xff\xfedb".to_vec()));
             std::fs::create_dir_all(&up).unwrap_or_else(|e| panic!("SIM-HARNESS: mkdir: {}", e));
